@@ -7,6 +7,21 @@
 From DynVerif Require Import Base Graph Derived Spec Stats.
 From DynVerif.proofs Require Import CoreInv C01Facts QueryFacts SnapInv DerivedFacts StatsFacts.
 
+(** the numerators and denominators ARE the set sizes of the stream-graph definitions: T = snapshot ids, T_u = node_presence u,
+    T_uv = instants of the pair (counted over T) *)
+Theorem C17_definitions : forall g u v,
+  fst (node_contribution g u) = Z.of_nat (length (node_presence g u)) /\
+  snd (node_contribution g u) = Z.of_nat (length (snap_keys g)) /\
+  fst (node_pair_uniformity g u v) = Z.of_nat (length (filter (fun t => has_node g u (Some t) && has_node g v (Some t)) (snap_keys g))) /\
+  snd (node_pair_uniformity g u v) = Z.of_nat (length (filter (fun t => has_node g u (Some t) || has_node g v (Some t)) (snap_keys g))) /\
+  fst (coverage g) = sumZ (map (fun t => number_of_nodes g (Some t)) (snap_keys g)) /\
+  snd (coverage g) = Z.of_nat (length (snap_keys g)) * Z.of_nat (length (g_nodes g)).
+Proof.
+  intros g u v. unfold node_contribution, node_pair_uniformity, coverage, node_presence, snap_keys, both_at, either_at. simpl.
+  rewrite !count_if_length, !map_length. repeat split; reflexivity.
+Qed.
+Print Assumptions C17_definitions.
+
 Theorem C17_unit_interval : forall g u v, InvAdj g ->
   0 <= fst (coverage g) <= snd (coverage g) /\
   0 <= fst (node_contribution g u) <= snd (node_contribution g u) /\
